@@ -282,4 +282,70 @@ def contracts():
     c(P + 'Parser.p_args', name='parser.p_args/positional-then-named',
       params=dict(p=prod(['list', 'v', 'list'])),
       ensures=['p[0] == p[1] + p[3]'], serves=('C03', 'C12'))
+    # ---- generated operator productions: never raise, whatever kind of
+    # node the operand is (C03), and build the node the table dictates (C02)
+    class Production(list):
+        pyvc_attrs = ('slice',)
+
+    class oprod:
+        is_factory = True
+
+        def __init__(self, shape, node_cls):
+            self.shape, self.node_cls = shape, node_cls
+
+        def __call__(self, name, path):
+            import types
+            out = Production([None])
+            out.slice = [None]
+            for i, s in enumerate(self.shape, 1):
+                if s == 'node':
+                    v = obj('yaql.language.expressions.' + self.node_cls)(
+                        'p%d' % i, path)
+                    out.slice.append(types.SimpleNamespace(type='value'))
+                else:
+                    v = s[0]
+                    out.slice.append(types.SimpleNamespace(type=s[1]))
+                out.append(v)
+            return out
+    ops = obj('yaql.language.factory.YaqlOperators',
+              operators={'-': (3, 6, 'OP_A', None),
+                         'not': (9, 0, 'OP_B', 'negate'),
+                         '!': (-2, 0, 'OP_C', 'bang'),
+                         '+': (0, 6, 'OP_D', 'plus')},
+              name_value_op=None)
+    parser = obj('yaql.language.parser.Parser',
+                 _aliases={'OP_A': None, 'OP_B': 'negate', 'OP_C': 'bang',
+                           'OP_D': 'plus'})
+    G = P + 'Parser._generate_operator_funcs.<locals>.'
+    for node_cls in ('Constant', 'KeywordConstant', 'GetContextValue',
+                     'Function', 'UnaryOperator', 'ListExpression', 'Wrap'):
+        for sym, tok, alias in (('-', 'OP_A', None), ('not', 'OP_B',
+                                                      'negate')):
+            c(G + 'p_unary', name='parser.p_unary/prefix:%s/%s' % (
+                sym, node_cls),
+              params=dict(this=parser, p=oprod([(sym, tok), 'node'],
+                                               node_cls)),
+              env=dict(yaql_operators=ops),
+              ensures=['calls[0][0] == "new:UnaryOperator" and '
+                       'calls[0][1][0] == "%s" and calls[0][1][1] is p[2] '
+                       'and calls[0][1][2] == %r and p[0] == calls[0][2]'
+                       % (sym, alias)],
+              serves=('C03', 'C02'), native=False)
+        c(G + 'p_unary', name='parser.p_unary/suffix/%s' % node_cls,
+          params=dict(this=parser, p=oprod(['node', ('!', 'OP_C')],
+                                           node_cls)),
+          env=dict(yaql_operators=ops),
+          ensures=['calls[0][0] == "new:UnaryOperator" and '
+                   'calls[0][1][0] == "!" and calls[0][1][1] is p[1] '
+                   'and calls[0][1][2] == "bang" and p[0] == calls[0][2]'],
+          serves=('C03', 'C02'), native=False)
+        c(G + 'p_binary', name='parser.p_binary/%s' % node_cls,
+          params=dict(this=parser, p=oprod(['node', ('+', 'OP_D'), 'node'],
+                                           node_cls)),
+          env=dict(yaql_operators=ops),
+          ensures=['calls[0][0] == "new:BinaryOperator" and '
+                   'calls[0][1][0] == "+" and calls[0][1][1] is p[1] '
+                   'and calls[0][1][2] is p[3] and calls[0][1][3] == "plus" '
+                   'and p[0] == calls[0][2]'],
+          serves=('C03', 'C02'), native=False)
     return cs
